@@ -14,7 +14,7 @@
     connection is still working through the packets it has buffered.
 
     Tiny model: the status and whether the lock is held by the blocked handler. *)
-From Coq Require Import List Bool.
+From Coq Require Import List Bool Arith.
 Import ListNotations.
 
 Record cstate := mkCS { connected : bool; stuck : bool }.
@@ -75,3 +75,87 @@ Proof.
   intros l. unfold cstep. rewrite Hs. destruct l; try discriminate.
   destruct (connected s); discriminate.
 Qed.
+
+(** ---- Design refutation (C12): one deadline for the whole reconnect loop ----
+
+    reconnect() retries setupEncryptedConnection(ctx) every second until it
+    succeeds.  In the code each attempt gets context.Background(): nothing an
+    attempt does depends on how long the loop has been running.  The tempting
+    variant "ctx := context.WithTimeout(Background(), reconnectTimeout) in front of
+    the loop" bounds the whole loop: once [deadline] seconds have passed every
+    DialContext fails at once, for ever, while the status stays Connecting (and
+    reconnect() is a no-op while Connecting).
+
+    Tiny model of the loop: seconds since it started, whether it has finished. *)
+Record lstate := mkLS { elapsed : nat; done : bool }.
+
+Inductive llabel :=
+| RTick                      (* one second *)
+| RAttempt (server_up : bool).
+
+Section Loop.
+  Variable shared : bool.      (* true: one deadline in front of the loop *)
+  Variable deadline : nat.
+
+  Definition attempt_ok (s : lstate) (server_up : bool) : bool :=
+    server_up && (negb shared || Nat.ltb (elapsed s) deadline).
+
+  Definition lstep (s : lstate) (l : llabel) : lstate :=
+    if done s then s else
+    match l with
+    | RTick => mkLS (S (elapsed s)) false
+    | RAttempt up => if attempt_ok s up then mkLS (elapsed s) true else s
+    end.
+
+  Definition lexec (s : lstate) (ls : list llabel) : lstate := fold_left lstep ls s.
+End Loop.
+
+Definition linit : lstate := mkLS 0 false.
+
+(** with per-attempt deadlines the first attempt that finds the server up ends the
+    loop, however long the outage was *)
+Theorem per_attempt_deadline_recovers :
+  forall deadline ls, done (lstep false deadline (lexec false deadline linit ls) (RAttempt true)) = true.
+Proof.
+  intros deadline ls. unfold lstep, attempt_ok.
+  destruct (done (lexec false deadline linit ls)) eqn:E; [exact E|]. reflexivity.
+Qed.
+
+(** with one deadline for the loop: after an outage of [deadline] seconds no
+    attempt succeeds any more, although the server is up *)
+Theorem single_loop_deadline_refuted :
+  forall deadline ls,
+    let outage := flat_map (fun _ => [RAttempt false; RTick]) (seq 0 deadline) in
+    (forall l, In l ls -> l = RTick \/ l = RAttempt true) ->
+    done (lexec true deadline linit (outage ++ ls)) = false.
+Proof.
+  intros deadline ls outage Hls. unfold lexec. rewrite fold_left_app.
+  assert (Hout : forall n s, done s = false ->
+            fold_left (lstep true deadline) (flat_map (fun _ => [RAttempt false; RTick]) (seq 0 n)) s
+            = mkLS (n + elapsed s) false).
+  { clear. intros n. generalize 0 as a. induction n as [|n IH]; intros a s Hd.
+    - destruct s as [e d]. cbn in *. subst. reflexivity.
+    - cbn [seq flat_map app fold_left].
+      assert (H1 : lstep true deadline s (RAttempt false) = s).
+      { unfold lstep, attempt_ok. rewrite Hd. reflexivity. }
+      rewrite H1.
+      assert (H2 : lstep true deadline s RTick = mkLS (S (elapsed s)) false).
+      { unfold lstep. rewrite Hd. reflexivity. }
+      rewrite H2, IH by reflexivity. cbn [elapsed]. f_equal. apply eq_sym, plus_n_Sm. }
+  unfold outage. rewrite (Hout deadline linit eq_refl). cbn [linit elapsed].
+  assert (Hkeep : forall l s, deadline <= elapsed s -> done s = false ->
+            (forall x, In x l -> x = RTick \/ x = RAttempt true) ->
+            done (fold_left (lstep true deadline) l s) = false).
+  { clear. induction l as [|x t IH]; intros s Hle Hd Hall; [exact Hd|].
+    cbn [fold_left]. apply IH; [| |intros y Hy; apply Hall; right; exact Hy].
+    - destruct (Hall x (or_introl eq_refl)) as [->| ->]; unfold lstep, attempt_ok; rewrite Hd.
+      + cbn [elapsed]. apply le_S. exact Hle.
+      + cbn [negb orb andb]. destruct (Nat.ltb_spec (elapsed s) deadline) as [Hlt|_]; [|exact Hle].
+        exfalso. exact (PeanoNat.Nat.lt_irrefl _ (PeanoNat.Nat.lt_le_trans _ _ _ Hlt Hle)).
+    - destruct (Hall x (or_introl eq_refl)) as [->| ->]; unfold lstep, attempt_ok; rewrite Hd.
+      + reflexivity.
+      + cbn [negb orb andb]. destruct (Nat.ltb_spec (elapsed s) deadline) as [Hlt|_]; [|exact Hd].
+        exfalso. exact (PeanoNat.Nat.lt_irrefl _ (PeanoNat.Nat.lt_le_trans _ _ _ Hlt Hle)). }
+  apply Hkeep; [cbn [elapsed]; rewrite PeanoNat.Nat.add_0_r; apply le_n|reflexivity|exact Hls].
+Qed.
+
